@@ -278,6 +278,7 @@ func runChild(dir string, cases []Case, idx []int, timeout time.Duration) ([]Out
 	var stderr bytes.Buffer
 	cmd.Stderr = &limitWriter{b: &stderr, max: 1 << 20}
 	cmd.Stdout = nil
+	cmd.SysProcAttr = &syscall.SysProcAttr{Pdeathsig: syscall.SIGKILL}
 	if err := cmd.Start(); err != nil {
 		return nil, -1, &CrashInfo{Stderr: err.Error()}
 	}
@@ -378,7 +379,8 @@ func (l *limitWriter) Write(p []byte) (int, error) {
 	return len(p), nil
 }
 
-// Apply feeds the outcomes into the run. extra (may be nil) supplies features for crashes.
+// Apply feeds the outcomes into the run. crashFeatures (may be nil) supplies features for
+// crashes; its "_prefix" entry, if any, is put in front of the clause name instead.
 func Apply(r *vf.Run, cases []Case, outs []Outcome, crashFeatures func(c Case) map[string]string) {
 	for i, oc := range outs {
 		c := cases[i]
@@ -389,12 +391,14 @@ func Apply(r *vf.Run, cases []Case, outs []Outcome, crashFeatures func(c Case) m
 					f[k] = v
 				}
 			}
+			pref := f["_prefix"]
+			delete(f, "_prefix")
 			if oc.Crash.Hang {
-				r.Violate(vf.Violation{Clause: "hang", Features: f, Detail: "case did not finish within the watchdog, twice (batch and alone)\n" + oc.Crash.Stderr, Case: c})
+				r.Violate(vf.Violation{Clause: pref + "hang", Features: f, Detail: "case did not finish within the watchdog, twice (batch and alone)\n" + oc.Crash.Stderr, Case: c})
 			} else {
 				f["panic"] = oc.Crash.Panic.Msg
 				f["at"] = oc.Crash.Panic.At
-				r.Violate(vf.Violation{Clause: "crash", Features: f, Detail: "the process died while running the case: " + oc.Crash.Stderr, Case: c})
+				r.Violate(vf.Violation{Clause: pref + "crash", Features: f, Detail: "the process died while running the case: " + oc.Crash.Stderr, Case: c})
 			}
 			r.Count("process_fatal_cases", 1)
 			continue
